@@ -104,4 +104,6 @@ impl Symbol {
     pub fn new(e: &Env, s: &str) -> (r: Symbol) ensures r.code@ == str_code(s@) { unimplemented!() }
     #[verifier::external_body]
     pub fn vx_short(s: &str) -> (r: Symbol) ensures r.code@ == str_code(s@) { unimplemented!() }
+    #[verifier::external_body]
+    pub const fn vx_const(s: &str) -> (r: Symbol) ensures r.code@ == str_code(s@) { Symbol { code: Ghost::assume_new() } }
 }
